@@ -47,10 +47,16 @@ def scaleStateJ (s : Scale.State Rat) : Json :=
     (match s.center with | none => [] | some c => [("center", optRatJ c)]) ++
     (match s.scale with | none => [] | some c => [("scale", optRatJ c)])
 
-def scaleArgOf : Json → Scale.Arg Rat
-  | .bool b => .flag b
-  | .str s => .value (ratOfString s)
-  | _ => .flag false
+/-- a written argument: JSON `true`/`false` = Python `bool`, "p/q" = Python number, an object
+`{"v": value, "as": type, "box": …}` = the value carried by a numpy scalar / 0-d array / Python float -/
+def scaleArgOf : Json → ScaleEntry.Written Rat
+  | .bool b => .pyBool b
+  | .str s => .number (ratOfString s)
+  | j =>
+    match j.getObjVal? "v" with
+    | .ok (.bool b) => .npBool b
+    | .ok (.str s) => .number (ratOfString s)
+    | _ => .pyBool false
 
 def kwOf {A : Type} (f : Json → A) (j : Json) : List (String × A) :=
   (asArr j).filterMap fun p =>
@@ -80,7 +86,7 @@ def scaleCallWith (sqrt : Rat → Rat) (st : Scale.State Rat) (c : Json) :
   match fnOf (jstr c "fn") with
   | none => .error (.bind .unmodelled)
   | some fn =>
-    ScaleEntry.call sqrt fn (dataOf c) ((jarr c "pos").map scaleArgOf) (kwOf scaleArgOf (jval c "kw")) st
+    ScaleEntry.callWritten sqrt fn (dataOf c) ((jarr c "pos").map scaleArgOf) (kwOf scaleArgOf (jval c "kw")) st
 
 def scaleCall (st : Scale.State Rat) (c : Json) : Except ScaleEntry.Err (List Rat × Scale.State Rat) :=
   let s : Rat := (optRatOf (jval c "sqrt")).getD 0
@@ -122,9 +128,16 @@ def polyErrStr : PolyEntry.Err → String
   | .poly .nonFinite => "nonfinite" | .poly .keyError => "KeyError" | .poly .typeError => "TypeError"
   | .poly .valueError => "ValueError"
 
+/-- a written `degree` / `raw`: a numpy boolean is a boolean, a numpy integer (or, for `raw`, a float with an
+integral value) is the integer it holds — numpy's own `__index__` / `__bool__` / arithmetic, nothing in poly.py
+looks at the type -/
 def polyArgOf : Json → PolyEntry.PArg
   | .bool b => .flag b
-  | j => .int (asInt j)
+  | j =>
+    match j.getObjVal? "v" with
+    | .ok (.bool b) => .flag b
+    | .ok v => .int (asInt v)
+    | .error _ => .int (asInt j)
 
 def polyCallWith (sqrt : Rat → Rat) (st : Poly.State Rat) (c : Json) :
     Except PolyEntry.Err (PolyEntry.Result Rat × Poly.State Rat) :=
